@@ -48,7 +48,7 @@ def _rdkit_spellings(src, k, rng):
         if Chem.SanitizeMol(rd, sanitizeOps=ops, catchErrors=True) != Chem.SANITIZE_NONE:
             return []
         Chem.AssignStereochemistry(rd, cleanIt=True, force=True)
-        out = []
+        out = [Chem.MolToSmiles(rd, kekuleSmiles=True)]      # its canonical spelling (marks on ring-closure digits of ring double bonds)
         for _ in range(k):
             out.append(Chem.MolToSmiles(rd, doRandom=True, kekuleSmiles=True, canonical=False))
         return out
@@ -184,6 +184,13 @@ def check_base(ctx, tag, src, m, cfg, rng):
             compare(ctx, 'rdkit', m, other, src, 'rdkit=%s' % text)
 
 
+# one labelled double bond inside a ring of 8-12 atoms (the library keeps ring E/Z from 8 atoms on), no second labelled double bond
+# next to it (that would be the recorded ring-diene writer finding), unlike ring arms
+MACRO_ENES = ['O=C1CCC/C=C/CO1', 'O=C1CCC/C=C\\CO1', 'CC1CCC/C=C/CCCO1', 'CC1CCC/C=C\\CCCO1', 'C1CCCC/C=C\\CCN1', 'C1CCCC/C=C/CCN1',
+              'CC1CCCC/C=C/CCCCC(=O)O1', 'O=C1CCCC/C=C(C)/CCO1', 'O=C1CCCC/C=C(C)\\CCO1', 'C1CC/C=C/CCCOC1', 'C1=C/CCCCCCO/1', 'C1=C/CCCCCCO\\1',
+              'N1CC/C=C/CCCCC1=O', 'C1(F)CCC/C=C/CC1', 'C1(F)CCC/C=C\\CC1', 'S1CCCC/C(C)=C/CCCC1']
+
+
 def bases(ctx, cfg):
     rng = ctx.rng
     c = T.corpus()
@@ -194,6 +201,10 @@ def bases(ctx, cfg):
         yield 'corpus', c[i]
     for k, (s, _) in enumerate(G.special()):
         if ctx.mine(k):
+            yield 'special', s
+    for k, s in enumerate(MACRO_ENES):
+        if ctx.mine(k):
+            ctx.count('base.ring-double-bond-8-12')
             yield 'special', s
     for k, s in enumerate(G.symmetric_dimers()):
         if ctx.mine(k):
